@@ -76,6 +76,13 @@ CHECKS = {
              "table's content is a finite fact not decided by this technique.",
         note="std HashMap/HashSet, Option::or_else and the lazy static are assumed; table content, keywords and UID dictionaries uncovered.",
     ),
+    "C16": dict(
+        technique="Kani/CBMC contract harness over all codec shapes for the capability queries; exhaustive native evaluation over the finite registry",
+        text="Complete proof that the capability queries equal the stated predicates for every descriptor shape; the per-entry facts of the registry "
+             "(UID lookup, uniqueness, implicit/big-endian, decoder/encoder presence) are decided by exhaustive evaluation of the 46 entries, "
+             "reported as exhaustive enumeration, not as a deductive result.",
+        note="Registry content depends on cargo features (native+deflate used). decoder_for/encoder_for cannot be compiled by Kani 0.68 (ICE).",
+    ),
     "C18": dict(
         technique="Verus loop invariant on the extracted default PixelDataWriter::encode; Kani bounded harnesses for Fragments::new / From<Vec<Fragments>>",
         text="Unbounded proof (any number of frames, any frame sizes) that the multi-frame encode driver builds the PS3.5 A.4 basic "
@@ -118,7 +125,6 @@ NOT_APPLICABLE = {
     "C36": "Parsing delegates to `std::net` address parsers and `str` splitting; string reasoning unsupported in Verus, too heavy for CBMC; no arithmetic or structural kernel to put under contract.",
     "C05": "check not built yet in this session (planned in DESIGN.md section 7); not claimed until its check runs",
     "C09": "check not built yet in this session (planned in DESIGN.md section 7); not claimed until its check runs",
-    "C16": "check not built yet in this session (planned in DESIGN.md section 7); not claimed until its check runs",
     "C17": "check not built yet in this session (planned in DESIGN.md section 7); not claimed until its check runs",
     "C20": "check not built yet in this session (planned in DESIGN.md section 7); not claimed until its check runs",
     "C22": "check not built yet in this session (planned in DESIGN.md section 7); not claimed until its check runs",
